@@ -153,6 +153,8 @@ def h_repr(it, x):
 
 @handler(abs)
 def h_abs(it, x):
+    if hasattr(x, "vals") and type(x).__name__ == "SArrayLite":
+        return type(x)([h_abs(it, v) for v in x.vals])
     if is_sym(x):
         x = as_arith(x)
         return z3.If(x >= 0, x, -x)
@@ -356,7 +358,9 @@ def h_set(it, xs=()):
     items = it.iterate(xs)
     if deep_concrete(items):
         return set(items)
-    raise Undecided("set() of symbolic values")
+    from .npmodel import SymSet
+
+    return SymSet.build(it, items)
 
 
 @handler(any)
